@@ -30,6 +30,35 @@ def classify_call(name):
     return None
 
 
+PROBE_ONLY_USES = re.compile(r"std::result::Result::<T, E>::(is_ok|is_err|as_ref|err|unwrap_err)|std::option::Option::<T>::(is_some|is_none|unwrap)|std::fs::File::metadata|std::fs::Metadata::.*|<.* as std::fmt::(Display|Debug)>::fmt|core::fmt::rt::Argument::<'_>::new_(display|debug)|<T as std::string::ToString>::to_string|std::result::Result::<T, E>::unwrap")
+
+
+def open_is_content_read(fn, t):
+    """File::open whose handle is used for more than an existence test: it is read, wrapped, stored or returned"""
+    ld = local_deps(fn)
+    dest = t["dest"]["l"]
+    # only values that still carry the handle: locals whose type mentions std::fs::File
+    desc = {l for l in range(len(fn.locals)) if dest in ld.closure(l) and "std::fs::File" in fn.local_ty(l)}
+    if 0 in desc:
+        return True
+    for b in fn.blocks:
+        if b["cleanup"]:
+            continue
+        for s in b["stmts"]:
+            if s["k"] == "assign" and s["rv"]["k"] == "aggregate" and s["rv"].get("agg") in ("adt", "closure"):
+                if any(o.get("k") in ("copy", "move") and o["l"] in desc for o in s["rv"]["ops"]) and "Result" not in (s["rv"].get("adt") or "") and "Option" not in (s["rv"].get("adt") or ""):
+                    return True
+        tt = b["term"]
+        if tt["k"] == "call" and tt is not t:
+            if any(a.get("k") in ("copy", "move") and a["l"] in desc for a in tt["args"]):
+                c = callee_name(tt) or ""
+                if c.endswith("::unwrap") and tt["dest"]["l"] in desc:
+                    continue   # unwrapping the Result just yields the handle; its uses are examined on their own
+                if not PROBE_ONLY_USES.fullmatch(c):
+                    return True
+    return False
+
+
 def find_predicates(F):
     """containment predicate: a bool function of one string that splits it and compares a segment with the constant '..'"""
     out = []
@@ -167,6 +196,8 @@ def run(ctx):
             if cc is None:
                 continue
             idx, cls = cc
+            if cls == "probe-or-read":
+                cls = "content" if open_is_content_read(fn, t) else "probe"
             tainted = taint_all.arg_tainted(fn, t, idx)
             r1.classify(("request-derived " if tainted else "constant ") + cls)
             if tainted:
@@ -191,7 +222,7 @@ def run(ctx):
                 continue
             idx, cls = cc
             if cls == "probe-or-read":
-                cls = "content" if reads_file else "probe"
+                cls = "content" if (reads_file or open_is_content_read(fn, t)) else "probe"
             if cls != "content":
                 continue
             if fn.crate != "rws" and c.startswith("std::"):
